@@ -6,7 +6,7 @@ from ..hx import assume, require, reach, Skip
 MANIFEST = dict(
     engines="A",
     technique="symbolic execution (CrossHair+z3) of debtags.DB: the database layout, package/tag names (chosen by symbolic index from an alphabet with multi-character and prefix-related names), operation codes and operands are symbolic; after every step the two indexes are compared with a reference relation",
-    text="Bounded model checking: from databases read from 0-3 lines (1-2 packages and 0-2 tags per line, names picked by symbolic indices) and 1-2 (thorough: 3) operations with symbolic code among insert, the six filters, the two choose variants, facet_collection, reverse, reverse_copy and copy, the package->tags and tag->packages indexes are mutually inverse and every query method agrees with a reference set of pairs. 'confirmed' = every solver-feasible combination within the bound was executed.",
+    text="Bounded model checking: from databases read from 0-3 lines (1-2 packages and 0-2 tags per line, names picked by symbolic indices) and 1-2 (thorough: 3) operations with symbolic code among insert, the six filters, the two choose variants, facet_collection, reverse, reverse_copy and copy, the package->tags and tag->packages indexes are mutually inverse and every query method agrees with a reference set of pairs. 'confirmed' = every solver-feasible combination within the bound was executed. After every step, queries for absent names answer empty and leave counts and iterators unchanged.",
     note="Names are drawn from a concrete alphabet by symbolic index (fully symbolic strings are realised by CrossHair when hashed into the real dict/set objects), so this is solver-driven bounded enumeration of layouts x histories. Distinct package names per database (the property's domain); tags follow the facet::name form or are single characters.",
 )
 
